@@ -49,6 +49,22 @@ func genC10(r *hx.RNG, tier string) *opCase {
 	if k.op == "Sqrt" {
 		k.x.Neg = false
 	}
+	if (k.op == "Add" || k.op == "Sub") && r.Chance(25) { // exact cancellation and near cancellation
+		k.y = k.x
+		if k.op == "Add" {
+			k.y = k.y.Negate()
+		}
+		if r.Chance(40) {
+			k.y.Coef = new(big.Int).Add(k.y.Coef, big.NewInt(int64(r.Range(1, 9))))
+		}
+	}
+	if k.op == "FMA" && r.Chance(25) { // u cancels the product exactly
+		k.u = oracle.Val{Form: oracle.Finite, Neg: k.x.Neg == k.y.Neg, Coef: new(big.Int).Mul(k.x.Coef, k.y.Coef), Exp: k.x.Exp + k.y.Exp}
+	}
+	if k.op == "Quo" && r.Chance(25) { // exact quotient
+		q := hx.CoefOf(r.Digits(r.Range(1, 60)))
+		k.x = oracle.Val{Form: oracle.Finite, Neg: r.Bool(), Coef: new(big.Int).Mul(q, k.y.Coef), Exp: k.y.Exp + int64(r.Range(-20, 20))}
+	}
 	// occasionally special operands
 	if r.Chance(6) {
 		sp := []oracle.Val{{Form: oracle.Zero}, {Form: oracle.Zero, Neg: true}, {Form: oracle.Inf}, {Form: oracle.Inf, Neg: true}}[r.Intn(4)]
@@ -146,6 +162,9 @@ func c10Case(c *hx.Ctx, r *hx.RNG, idx int64) {
 	}
 	part := parts[r.Intn(len(parts))]
 	k.applyShape(part)
+	if r.Chance(60) {
+		k.spareCap = r.Range(1, int(k.p)/19+8)
+	}
 	l := hx.LimitsFor(c.Tier)
 	if k.costly(l) {
 		c.Skip()
@@ -162,7 +181,9 @@ func c10Case(c *hx.Ctx, r *hx.RNG, idx int64) {
 		fmt.Println("case:", k.desc(true), "shape", shape)
 	}
 	// reference: distinct variables, fresh receiver
+	k.noSoil = true
 	ref, rpi, _, _ := k.execShape(partitions4[0], nil)
+	k.noSoil = false
 	if rpi != nil && (rpi.Class == "mk" || rpi.Class == "cost") {
 		panic(rpi.Val)
 	}
@@ -220,7 +241,6 @@ func c10Case(c *hx.Ctx, r *hx.RNG, idx int64) {
 			}
 		}
 	}
-	_ = big.NewInt
 }
 
 func panicStr(pi *hx.PanicInfo) string {
